@@ -38,23 +38,80 @@ def _lt(x):
     return None if x is None else torch.tensor(x, dtype=torch.long)
 
 
+LAYOUTS = ["contiguous", "expanded", "strided"]
+VIAS = ["functional", "module", "functional_kw", "module_kw"]
+# the documented defaults of slice_spect_data / SliceSpectData and of the token chunker
+SLICE_DEFAULTS = {"policy": "fixed", "window_type": "symmetric", "valid_only": True, "lobe_size": 0}
+TOKEN_DEFAULTS = {"partial": False, "retain": False}
+
+
+def lay_out(x, layout):
+    """The same values in a different memory layout: 'expanded' = a stride-0 view of one row when
+    all batch rows are equal (the way chunk-torch-spect-data-dir passes an utterance against its M
+    windows), 'strided' = a non-contiguous view (every second element of a larger buffer along
+    every dimension)."""
+    import torch
+    if x is None or layout in (None, "contiguous") or x.ndim == 0:
+        return x
+    if layout == "expanded":
+        if x.shape[0] > 1 and bool((x == x[:1]).all()):
+            return x[:1].expand(*x.shape)
+        layout = "strided"
+    big = torch.full([2 * d for d in x.shape], -77, dtype=x.dtype)
+    view = big[tuple(slice(None, None, 2) for _ in x.shape)]
+    view.copy_(x)
+    return view
+
+
 def build_input(case):
     import torch
     N, T = case["N"], case["T"]
     pol = case["policy"]
     if pol == "fixed":
-        return torch.zeros((N, T, case.get("F", 1)))
-    if pol == "ali":
-        return torch.tensor(case["rows"], dtype=torch.long).reshape(N, T)
-    return torch.tensor(case["rows"], dtype=torch.long).reshape(N, T, 3)
+        x = torch.zeros((N, T, case.get("F", 1)))
+    elif pol == "ali":
+        x = torch.tensor(case["rows"], dtype=torch.long).reshape(N, T)
+    else:
+        x = torch.tensor(case["rows"], dtype=torch.long).reshape(N, T, 3)
+    return lay_out(x, case.get("layout"))
+
+
+def non_default(kw, defaults):
+    """Keyword form of a call: arguments equal to their documented default are OMITTED."""
+    return {k: v for k, v in kw.items() if defaults[k] != v}
 
 
 def call_slicer(case, inp, in_lens, other_lens, wt, vo, lobe):
-    if case.get("via") == "module":
+    via = case.get("via", "functional")
+    kw = {"policy": case["policy"], "window_type": wt, "valid_only": vo, "lobe_size": lobe}
+    if via.startswith("module"):
         from pydrobert.torch.modules import SliceSpectData
-        return SliceSpectData(case["policy"], wt, vo, lobe)(inp, in_lens, other_lens)
+        mod = (SliceSpectData(**non_default(kw, SLICE_DEFAULTS)) if via == "module_kw"
+               else SliceSpectData(case["policy"], wt, vo, lobe))
+        if via == "module_kw":
+            lens = {k: v for k, v in (("in_lens", in_lens), ("other_lens", other_lens)) if v is not None}
+            return mod(inp, **lens)
+        return mod(inp, in_lens, other_lens)
     from pydrobert.torch.functional import slice_spect_data
+    if via == "functional_kw":
+        lens = {k: v for k, v in (("in_lens", in_lens), ("other_lens", other_lens)) if v is not None}
+        return slice_spect_data(inp, **lens, **non_default(kw, SLICE_DEFAULTS))
     return slice_spect_data(inp, in_lens, other_lens, case["policy"], wt, vo, lobe)
+
+
+def call_chunker(case, refs, sl, rl, p, r):
+    via = case.get("via", "functional")
+    kw = non_default({"partial": p, "retain": r}, TOKEN_DEFAULTS)
+    lens = {} if rl is None else {"ref_lens": rl}
+    if via.startswith("module"):
+        from pydrobert.torch.modules import ChunkTokenSequencesBySlices
+        if via == "module_kw":
+            return ChunkTokenSequencesBySlices(**kw)(refs, sl, **lens)
+        return ChunkTokenSequencesBySlices(p, r)(refs, sl, rl)
+    from pydrobert.torch.functional import chunk_token_sequences_by_slices
+    if via == "functional_kw":
+        return chunk_token_sequences_by_slices(refs, sl, **lens, **kw)
+    return chunk_token_sequences_by_slices(refs, sl, rl, p, r)
 
 
 def lens_in_domain(case, opt):
@@ -102,6 +159,15 @@ class C10(PropertyCheck):
 
     # ------------------------------------------------------------------ generators
     def cases(self, rng, tier):
+        for c in self.cases_raw(rng, tier):
+            if c["kind"] in ("slice", "tokens") and "N" in c or c["kind"] == "tokens":
+                # entry point / call form (positional, or keywords with documented defaults omitted) and
+                # memory layout of the arguments are drawn per case
+                c["via"] = rng.choice(VIAS)
+                c["layout"] = rng.choice(["contiguous", "contiguous", "contiguous", "expanded", "expanded", "strided"])
+            yield c
+
+    def cases_raw(self, rng, tier):
         big = tier != "quick"
         # directory level first (so that it is never cut off by the budget): the command line with
         # --num-workers 0, every subset of its boolean flags x policy x validity, every file-layout option
@@ -290,7 +356,8 @@ class C10(PropertyCheck):
         for lobe, wt, vo, oi in grid_slice(case):
             opt = case["lens_opts"][oi]
             try:
-                sl, src = call_slicer(case, inp, _lt(opt.get("in_lens")), _lt(opt.get("other_lens")), wt, vo, lobe)
+                sl, src = call_slicer(case, inp, lay_out(_lt(opt.get("in_lens")), case.get("layout")),
+                                      lay_out(_lt(opt.get("other_lens")), case.get("layout")), wt, vo, lobe)
                 ok = (sl.ndim == 2 and sl.shape[1] == 2 and src.ndim == 1 and sl.shape[0] == src.shape[0]
                       and str(sl.dtype) == "torch.int64" and str(src.dtype) == "torch.int64")
                 if not ok:
@@ -305,18 +372,20 @@ class C10(PropertyCheck):
         import torch
         N = len(case["refs"])
         R = len(case["refs"][0]) if N else 0
-        refs = torch.tensor(case["refs"], dtype=torch.long).reshape(N, R, 3)
+        layout = case.get("layout")
+        refs = lay_out(torch.tensor(case["refs"], dtype=torch.long).reshape(N, R, 3), layout)
+        before = refs.tolist()
         res = []
         for p, r, si, li in grid_tokens(case):
-            sl = torch.tensor(case["slices_opts"][si], dtype=torch.long).reshape(N, 2)
-            rl = _lt(case["ref_lens_opts"][li])
+            sl = lay_out(torch.tensor(case["slices_opts"][si], dtype=torch.long).reshape(N, 2),
+                         "strided" if layout == "strided" else None)
+            rl = lay_out(_lt(case["ref_lens_opts"][li]), layout)
             try:
-                if case.get("via") == "module":
-                    from pydrobert.torch.modules import ChunkTokenSequencesBySlices
-                    ch, cl = ChunkTokenSequencesBySlices(p, r)(refs, sl, rl)
-                else:
-                    from pydrobert.torch.functional import chunk_token_sequences_by_slices
-                    ch, cl = chunk_token_sequences_by_slices(refs, sl, rl, p, r)
+                ch, cl = call_chunker(case, refs, sl, rl, p, r)
+                if refs.tolist() != before:
+                    res.append({"error": "InputModified", "message": "refs changed by the call"})
+                    refs = lay_out(torch.tensor(case["refs"], dtype=torch.long).reshape(N, R, 3), layout)
+                    continue
                 if ch.ndim != 3 or ch.shape[0] != N or ch.shape[2] != 3 or tuple(cl.shape) != (N,) or \
                         any(int(c) > ch.shape[1] or int(c) < 0 for c in cl):
                     res.append({"error": "BadShape", "message": f"{tuple(ch.shape)} {tuple(cl.shape)}"})
@@ -525,6 +594,7 @@ class C10(PropertyCheck):
             t.append(f"slice:{case['policy']}:N={min(case['N'], 4)}{'+' if case['N'] > 4 else ''}")
             t.append(f"slice:T={case['T']}")
             t.append("via:" + case.get("via", "functional"))
+            t.append("layout:" + case.get("layout", "contiguous"))
             if any(o.get("in_lens") is None for o in case["lens_opts"]):
                 t.append(f"slice:{case['policy']}:in_lens_omitted")
             if any(o.get("other_lens") is None for o in case["lens_opts"]) and case["policy"] == "ref":
@@ -537,6 +607,7 @@ class C10(PropertyCheck):
         else:
             t.append("tokens")
             t.append("via:" + case.get("via", "functional"))
+            t.append("layout:" + case.get("layout", "contiguous"))
             t.append(f"tokens:R={len(case['refs'][0]) if case['refs'] else 0}")
         return t
 
